@@ -133,3 +133,137 @@ def gfortran_syntax(workdir, tag, sources, width=132, timeout=120):
     except subprocess.TimeoutExpired:
         return None, 'timeout'
     return c.returncode == 0, c.stderr[-2500:]
+
+
+# --------------------------------------------------------------------------------- structural IR export (C02)
+# An export of a Loki IR that does not use Loki's visitors, finders, mappers or the backend: a plain recursion over
+# the dataclass fields of IR nodes, the sections of program units, and the constructor arguments of expression nodes.
+# Result: a flat pre-order list of strings "depth kind attributes / expressions".
+IR_EXEMPT_FIELDS = {'source', 'symbol_attrs', 'parent', 'rescope_symbols', 'incomplete', 'ast'}
+
+
+def _ascii(s):
+    return ''.join(ch if 31 < ord(ch) < 127 else '?' for ch in s)
+
+
+def xtype(t):
+    """Summary of the declared attributes of a symbol (SymbolAttributes)."""
+    if t is None:
+        return 'notype'
+    parts = []
+    for k in sorted(getattr(t, '__dict__', {})):
+        v = t.__dict__[k]
+        if k.startswith('_') or k in ('source', 'imported', 'module', 'use_name', 'dimensions') or v is None or v is False:
+            continue
+        if k == 'dtype':
+            nm = getattr(v, 'name', None)
+            rt = getattr(v, 'return_type', None)
+            parts.append(f'dtype={type(v).__name__}:{str(nm).lower() if nm else v}' + (f'->{xtype(rt)}' if rt is not None else ''))
+        elif k == 'bind_names':
+            parts.append('bind_names=' + xexpr(v))
+        else:
+            parts.append(f'{k}={xexpr(v)}')
+    return '{' + ' '.join(parts) + '}'
+
+
+def xexpr(e, with_type=False):
+    """Prefix form of an expression tree: class names, names / values, children in constructor order."""
+    from pymbolic.primitives import Expression
+    from loki.expression import symbols as sym
+    if e is None:
+        return '-'
+    if isinstance(e, (tuple, list)):
+        return '<' + ','.join(xexpr(x, with_type) for x in e) + '>'
+    if isinstance(e, dict):
+        return '{' + ','.join(f'{k}:{xexpr(v)}' for k, v in e.items()) + '}'
+    if isinstance(e, bool):
+        return 'T' if e else 'F'
+    if isinstance(e, (int, float)):
+        return repr(e)
+    if isinstance(e, str):
+        return 's:' + _ascii(e)
+    cls = type(e).__name__
+    if isinstance(e, (sym.TypedSymbol, sym.MetaSymbol)):
+        s = f'{cls}[{str(e.name).lower()}'
+        dims = getattr(e, 'dimensions', None)
+        if dims:
+            s += ' dims=' + xexpr(dims)
+        if with_type:
+            s += ' type=' + xtype(getattr(e, 'type', None))
+        return s + ']'
+    if isinstance(e, sym.StringLiteral):
+        return f'StringLiteral[{_ascii(e.value)}]'
+    if isinstance(e, (sym.IntLiteral, sym.FloatLiteral, sym.LogicLiteral, sym.IntrinsicLiteral)):
+        kind = getattr(e, 'kind', None)
+        return f'{cls}[{str(e.value).lower()}' + (f' kind={xexpr(kind)}' if kind is not None else '') + ']'
+    if isinstance(e, Expression):
+        try:
+            args = e.__getinitargs__()
+        except Exception:  # pylint: disable=broad-except
+            args = (str(e),)
+        return f'{cls}(' + ','.join(xexpr(a) for a in args) + ')'
+    nm = getattr(e, 'name', None)
+    return f'{cls}:{_ascii(str(nm if nm is not None else e))}'
+
+
+def export_ir(obj, depth=0, out=None):
+    """Flat pre-order export of a Sourcefile / program unit / IR node."""
+    from dataclasses import fields as dc_fields, is_dataclass
+    from pymbolic.primitives import Expression
+    from loki import Sourcefile, ProgramUnit, ir
+    out = [] if out is None else out
+    if obj is None:
+        return out
+    if isinstance(obj, (tuple, list)):
+        for x in obj:
+            export_ir(x, depth, out)
+        return out
+    if isinstance(obj, Sourcefile):
+        export_ir(obj.ir, depth, out)
+        return out
+    if isinstance(obj, ProgramUnit):
+        head = f'{depth} {type(obj).__name__} name={obj.name.lower()}'
+        if hasattr(obj, 'arguments'):
+            head += ' args=' + xexpr([a.name.lower() for a in obj.arguments])
+            head += ' prefix=' + xexpr(tuple(str(p).lower() for p in (obj.prefix or ())))
+            head += ' bind=' + xexpr(obj.bind)
+            if getattr(obj, 'is_function', False):
+                head += f' result={str(obj.result_name).lower()}'
+        else:
+            head += f' access={obj.default_access_spec} public={xexpr(obj.public_access_spec)} private={xexpr(obj.private_access_spec)}'
+        out.append(head)
+        for sec in ('docstring', 'spec', 'body', 'contains'):
+            export_ir(getattr(obj, sec, None), depth + 1, out)
+        return out
+    if not isinstance(obj, ir.Node):
+        out.append(f'{depth} ?{type(obj).__name__}')
+        return out
+    attrs, kids = [], []
+    for f in dc_fields(obj):
+        if f.name in IR_EXEMPT_FIELDS or f.name.startswith('_'):
+            continue
+        v = getattr(obj, f.name, None)
+        if v is None or v == () or v is False:
+            continue
+
+        def has_node(x):
+            if isinstance(x, (ir.Node, ProgramUnit)):
+                return True
+            return isinstance(x, (tuple, list)) and any(has_node(y) for y in x)
+        if has_node(v):
+            kids.append((f.name, v))
+        elif f.name == 'symbols' and type(obj).__name__ in ('VariableDeclaration', 'ProcedureDeclaration', 'Import', 'Enumeration'):
+            attrs.append('symbols=' + xexpr(v, with_type=True))
+        else:
+            attrs.append(f'{f.name}=' + xexpr(v))
+    out.append(f'{depth} {type(obj).__name__} ' + ' '.join(attrs))
+    for name, v in kids:
+        # bodies of multi-branch nodes are tuples of tuples: mark the branch borders
+        if isinstance(v, (tuple, list)) and v and all(isinstance(x, (tuple, list)) for x in v):
+            for bi, b in enumerate(v):
+                out.append(f'{depth + 1} .{name}[{bi}]')
+                export_ir(b, depth + 2, out)
+        else:
+            out.append(f'{depth + 1} .{name}')
+            export_ir(v, depth + 2, out)
+    return out
